@@ -12,6 +12,7 @@ import CBV.Lemmas.C09Arc
 import CBV.Lemmas.C09Entity
 import CBV.Lemmas.C09Seq
 import CBV.Lemmas.C09CopyOut
+import CBV.Lemmas.C09Shear
 import CBV.Gen.TC09
 
 namespace CBV.C09
@@ -610,5 +611,108 @@ theorem T_C09_shear_not_affine :
   have := congrArg V3.x h
   simp only [V3.smul_x, V3.add_x] at this
   norm_num at this
+
+/-! ### Round 6d: `shear` on whole entities, and what a sheared face keeps -/
+
+/-- **`ElementBase.shear` on any part tree without shared leaves**: every leaf cell — corner points, arc points, rows of
+    point arrays, and axis directions alike (`AxisVector` inherits `Point.shear`) — holds the point map of its old value,
+    exactly once; no other cell changes; the tree keeps its shape (no inversion; interpolation caches dropped) -/
+theorem T_C09_shear_tree (f : V3 → V3) (e : Ent) (h : Heap) (hna : NoAlias e) (hin : InHeap e h) :
+    (∀ v ∈ visitsE e, Heap.get (shearE f e h).2 v.1 = f (Heap.get h v.1)) ∧
+    (∀ i, i ∉ (visitsE e).map Prod.fst → Heap.get (shearE f e h).2 i = Heap.get h i) ∧
+    (shearE f e h).2.length = h.length ∧ (shearE f e h).1 = invalidE e := by
+  rw [shearE_heap]
+  refine ⟨fun v hv => runG_once f (visitsE e) h v.1 v.2 hna hv (hin v hv), fun i hi => runG_untouched f _ h i hi,
+    runG_length f _ h, shearE_tree f e h⟩
+
+example : NoAlias sampleFace ∧ InHeap sampleFace (List.replicate 8 V3.zero) := by
+  constructor
+  · unfold NoAlias; decide
+  · unfold InHeap; decide
+
+/-- the affine shear of the half-space the normal points to -/
+def shearPlus (n o d : V3) (sn sd c : Rat) (p : V3) : V3 := p + V3.smul (V3.dot (p - o) n / sn * c / sd) d
+
+/-- **a face (four corner points, straight edges) that lies on the normal's side of the plane, farther than `TOL`**: its
+    corners are carried by ONE affine map (`shearPlus`), so everything affine is kept — in particular the centre of the
+    sheared face is the sheared centre (the centre is on that side too) and a straight edge is the image of the straight
+    edge.  (Distances and angles are not kept: a shear is not a similarity.) -/
+theorem T_C09_shear_face_one_side (n o d : V3) (sn sd c : Rat) (p0 p1 p2 p3 : V3) (hsn : 0 < sn)
+    (h0 : shearTol * sn < V3.dot (p0 - o) n) (h1 : shearTol * sn < V3.dot (p1 - o) n)
+    (h2 : shearTol * sn < V3.dot (p2 - o) n) (h3 : shearTol * sn < V3.dot (p3 - o) n) :
+    let sh := shearP n o d sn sd c
+    sh p0 = shearPlus n o d sn sd c p0 ∧ sh p1 = shearPlus n o d sn sd c p1 ∧
+    sh p2 = shearPlus n o d sn sd c p2 ∧ sh p3 = shearPlus n o d sn sd c p3 ∧
+    avg [sh p0, sh p1, sh p2, sh p3] = sh (avg [p0, p1, p2, p3]) ∧
+    (∀ lam : Rat, shearPlus n o d sn sd c (p0 + V3.smul lam (p1 - p0)) =
+      shearPlus n o d sn sd c p0 + V3.smul lam (shearPlus n o d sn sd c p1 - shearPlus n o d sn sd c p0)) := by
+  intro sh
+  have e0 := (T_C09_shear_sides n o d sn sd c p0 hsn).1 h0
+  have e1 := (T_C09_shear_sides n o d sn sd c p1 hsn).1 h1
+  have e2 := (T_C09_shear_sides n o d sn sd c p2 hsn).1 h2
+  have e3 := (T_C09_shear_sides n o d sn sd c p3 hsn).1 h3
+  have hc : shearTol * sn < V3.dot (avg [p0, p1, p2, p3] - o) n := by
+    have : V3.dot (avg [p0, p1, p2, p3] - o) n =
+        (V3.dot (p0 - o) n + V3.dot (p1 - o) n + V3.dot (p2 - o) n + V3.dot (p3 - o) n) / 4 := by
+      simp only [avg, vsum, List.foldl, List.length, V3.dot]
+      v3_unfold
+      simp only [V3.zero]
+      push_cast
+      ring
+    rw [this]; linarith
+  have ec := (T_C09_shear_sides n o d sn sd c _ hsn).1 hc
+  refine ⟨e0, e1, e2, e3, ?_, ?_⟩
+  · show avg [shearP n o d sn sd c p0, shearP n o d sn sd c p1, shearP n o d sn sd c p2, shearP n o d sn sd c p3] = _
+    rw [e0, e1, e2, e3]
+    show _ = shearP n o d sn sd c (avg [p0, p1, p2, p3])
+    rw [ec]
+    simp only [avg, vsum, List.foldl, List.length, V3.dot, V3.zero]
+    apply V3.ext' <;> v3_unfold <;> push_cast <;> ring
+  · intro lam
+    simp only [shearPlus, V3.dot]
+    apply V3.ext' <;> v3_unfold <;> ring
+
+example : (0 : Rat) < 1 ∧ shearTol * 1 < V3.dot ((⟨0, 0, 2⟩ : V3) - ⟨0, 0, 0⟩) ⟨0, 0, 1⟩ := by
+  constructor
+  · norm_num
+  · simp only [shearTol, V3.dot, V3.sub_x, V3.sub_y, V3.sub_z]; norm_num
+
+/-- **a face that straddles the plane is not carried by an affine map**: the quad (0,0,1), (1,0,1), (1,0,−1), (0,0,−1)
+    across the plane z = 0, sheared along x: all four corners move by +1 in x, the centre of the sheared face is
+    (3/2, 0, 0) while the centre (1/2, 0, 0) lies on the plane and stays — and the straight edge from (0,0,−1) to (0,0,1),
+    whose midpoint is on the plane and does not move, is replaced by the straight edge between the moved end points,
+    which does not pass through it -/
+theorem T_C09_shear_face_straddling :
+    let sh := shearP ⟨0, 0, 1⟩ ⟨0, 0, 0⟩ ⟨1, 0, 0⟩ 1 1 1
+    avg [sh ⟨0, 0, 1⟩, sh ⟨1, 0, 1⟩, sh ⟨1, 0, -1⟩, sh ⟨0, 0, -1⟩] = ⟨3 / 2, 0, 0⟩ ∧
+      sh (avg [⟨0, 0, 1⟩, ⟨1, 0, 1⟩, ⟨1, 0, -1⟩, ⟨0, 0, -1⟩]) = ⟨1 / 2, 0, 0⟩ := by
+  have key : ∀ x z : Rat, z = 1 ∨ z = -1 → shearP ⟨0, 0, 1⟩ ⟨0, 0, 0⟩ ⟨1, 0, 0⟩ 1 1 1 ⟨x, 0, z⟩ = ⟨x + 1, 0, z⟩ := by
+    intro x z hz
+    unfold shearP
+    rcases hz with rfl | rfl <;>
+      (simp only [V3.dot, V3.sub_x, V3.sub_y, V3.sub_z, absQ, shearTol]; norm_num
+       apply V3.ext' <;> v3_unfold <;> norm_num)
+  intro sh
+  constructor
+  · show avg [shearP _ _ _ 1 1 1 ⟨0, 0, 1⟩, shearP _ _ _ 1 1 1 ⟨1, 0, 1⟩, shearP _ _ _ 1 1 1 ⟨1, 0, -1⟩,
+      shearP _ _ _ 1 1 1 ⟨0, 0, -1⟩] = _
+    rw [key 0 1 (Or.inl rfl), key 1 1 (Or.inl rfl), key 1 (-1) (Or.inr rfl), key 0 (-1) (Or.inr rfl)]
+    simp only [avg, vsum, List.foldl, List.length]
+    apply V3.ext' <;> v3_unfold <;> simp only [V3.zero] <;> norm_num
+  · have hm : avg [(⟨0, 0, 1⟩ : V3), ⟨1, 0, 1⟩, ⟨1, 0, -1⟩, ⟨0, 0, -1⟩] = ⟨1 / 2, 0, 0⟩ := by
+      simp only [avg, vsum, List.foldl, List.length]
+      apply V3.ext' <;> v3_unfold <;> simp only [V3.zero] <;> norm_num
+    show shearP _ _ _ 1 1 1 _ = _
+    rw [hm]
+    exact T_C09_shear_plane _ _ _ _ _ _ _ (by simp [V3.dot])
+
+/-- the least number of rows of a point array that `wfV` demands is the one `Array.__init__` enforces (its guard
+    `len(points) <= 1`, read with `ast`), and with it an array is never empty — what the centre theorems need -/
+theorem T_C09_array_rows_source :
+    arrayMinRows = Gen.c09ArrayMinRows ∧ (∀ vs : List V3, wfV (.arr vs) = true → vs ≠ []) := by
+  refine ⟨rfl, ?_⟩
+  intro vs h h0
+  rw [h0] at h
+  simp [wfV, arrayMinRows] at h
 
 end CBV.C09
